@@ -27,7 +27,7 @@ def package_functions(mods):
                 out.append((short, name, f))
             elif inspect.isclass(obj) and obj.__module__ == mod.__name__:
                 for mname, m in vars(obj).items():
-                    if inspect.isfunction(m):
+                    if inspect.isfunction(m) and m.__code__.co_filename == getattr(mod, '__file__', None):
                         out.append((short, f'{name}.{mname}', m))
     return out
 
